@@ -487,4 +487,13 @@ def run(tier: str, seed: int) -> list[Part]:
         part.counters["tlc_wall_s"] = res.wall_s
         part.wall_s = time.time() - t0
         parts.append(part)
+    # companion: open finding F15 still occurs in the model
+    t0 = time.time()
+    kf = run_tlc("MC_Sql.tla", "SqlKF15.cfg", expect_violation=True, heap="3g")
+    if kf.violated != "KF15Gone":
+        raise MachineryError(f"companion SqlKF15 no longer violates KF15Gone (got {kf.violated})")
+    p = Part(name="sqlprogram:F15-companion", cfg="SqlKF15.cfg", states=max(kf.distinct, 1), transitions=max(kf.generated, 1))
+    p.notes.append("TLC counterexample re-derives F15: calculation then projection dropping the calculated column")
+    p.wall_s = time.time() - t0
+    parts.append(p)
     return parts
